@@ -45,9 +45,11 @@ class Plan:
         import c04_task
         p, c = dump.dump_mir("compio-executor", [], tag="compio-executor-dbg", debug_assertions=True)
         self.checker_cmd = c + " ;; mirsym/c04_task.py"
+        import c04_handle
         self.T = c04_task.TaskModel(p)
+        self.H = c04_handle.HandleModel(p)
         self.mod = c04_task
-        Plan.summaries = c04_task.SUMMARY_TEXT
+        Plan.summaries = c04_task.SUMMARY_TEXT + c04_handle.SUMMARY_TEXT
 
     def _check(self, mode, program, pb, teardown=False):
         from explore import Stats, Failure
@@ -81,6 +83,8 @@ class Plan:
               # is still used elsewhere
               self._check("local", ["detach"], 2, True), self._check("remote", ["drop"], 2, True),
               self._check("remote", ["poll_until_ready"], 2, True)]
+        # the JoinHandle wrapper above the task layer (result mapping, what drop / detach ask of the task)
+        cs += [("handle." + n, getattr(self.H, "check_" + n)) for n in self.H.CHECKS]
         if tier == "thorough":
             cs += [self._check("remote", ["poll", "poll_b", "poll_until_ready"], 2),
                    self._check("local", ["poll", "poll_b", "poll_until_ready"], 2),
@@ -90,7 +94,7 @@ class Plan:
         return cs
 
     def encoded(self):
-        return sorted(self.T.encoded)
+        return sorted(self.T.encoded | self.H.encoded)
 
     def bounds(self, tier):
         return {"tasks": 1, "executor_ticks": 4, "waker_clones": 1, "handle_operations": "1-3",
